@@ -125,6 +125,16 @@ func openDB(kind, dir string) (api.NodeDB, error) {
 	return pathDb.New(cfg)
 }
 
+// safeOp runs an operation and turns a panic of the implementation into an error.
+func safeOp(ndb api.NodeDB, op Op, roots map[int]*rootInfo) (err error) {
+	defer func() {
+		if p := recover(); p != nil {
+			err = fmt.Errorf("PANIC: %v", p)
+		}
+	}()
+	return doOp(ndb, op, roots)
+}
+
 func doOp(ndb api.NodeDB, op Op, roots map[int]*rootInfo) error {
 	ctx := context.Background()
 	switch op.K {
@@ -600,6 +610,11 @@ func runCase(self string, c Case) result {
 		}
 		func() {
 			defer os.RemoveAll(dir)
+			defer func() {
+				if pv := recover(); pv != nil {
+					res.viol = append(res.viol, fmt.Sprintf("%s: PANIC after a crash at %s in %s (reopen / read-back / retry): %v", c.Backend, p, c.Ops[n-1].K, pv))
+				}
+			}()
 			ndb, err := openDB(c.Backend, dir)
 			if err != nil {
 				res.viol = append(res.viol, fmt.Sprintf("%s: database does not reopen after a crash at %s: %v", c.Backend, p, err))
@@ -640,7 +655,7 @@ func runCase(self string, c Case) result {
 				res.notes["crash-state:fully"]++
 			}
 			// (c) retry
-			err = doOp(ndb, c.Ops[n-1], roots)
+			err = safeOp(ndb, c.Ops[n-1], roots)
 			if k := stepsAt(p); c.Backend == "badger" && k >= 0 {
 				retryObs := observe(ndb, roots)
 				res.coq = append(res.coq, fmt.Sprintf("(in_c (%s, %s, %d%%nat, %s), out_c (%s, %s, %s))", coqout.List(coqOps), "("+coqLast+")", k,
